@@ -25,8 +25,14 @@ def run(ctx):
     ctx.rule("R18-5", "recording does not fail silently: every Err path of the INSERT in add_raw reaches a message on "
                       "stderr, and the connection keeps rusqlite's default busy timeout (no busy_timeout / busy_handler "
                       "call shortens the wait behind another shell's write lock)")
+    ctx.rule("R18-6", "the numbers `history` shows keep naming the same rows until they are used (by this or another shell): "
+                      "the table has no INTEGER PRIMARY KEY, so its rowids are renumbered by VACUUM and reassigned by "
+                      "REPLACE / table rebuilds - no SQL text handed to rusqlite anywhere in the crate contains such a "
+                      "statement (VACUUM, REPLACE INTO, INSERT OR REPLACE, DROP TABLE, CREATE TABLE .. AS, UPDATE of "
+                      "rowid, auto_vacuum)")
     for crate in ctx.crates:
         insert_failure_rule(ctx, crate)
+        stable_rowid_rule(ctx, crate)
         n = sql_rule(ctx, crate)
         if crate.kind == "bin":
             ctx.floor("R18-1", crate, "SQL sinks", n, FLOOR_SINKS)
@@ -325,3 +331,63 @@ def insert_failure_rule(ctx, crate):
            key="R18-5|history|busy-timeout", crate=crate.kind,
            detail=None if not tuned else "%s: while another shell holds the write lock longer than the new timeout the "
            "INSERT fails with SQLITE_BUSY" % tuned[0][1])
+
+
+RENUMBERING = [r"\bvacuum\b", r"\breplace\s+into\b", r"\binsert\s+or\s+replace\b", r"\bdrop\s+table\b",
+               r"\bcreate\s+table\b[^;]*\bas\s+select\b", r"\bset\s+rowid\b", r"\bauto_vacuum\b",
+               r"\balter\s+table\b[^;]*\brename\b"]
+
+
+def stable_rowid_rule(ctx, crate):
+    import re as _re
+    n_fn = 0
+    declared_pk = False
+    hits = []
+    for b in crate.fns():
+        if not any(last_seg(c) in SINKS and "rusqlite" in c for bb, t, c in b.calls()):
+            continue
+        n_fn += 1
+        lits = set()
+        for bi, si, s_ in b.stmts():
+            if s_["k"] == "assign":
+                for sub in mir.subexprs(b.rvalue_expr(s_["rv"])):
+                    cs = const_str(sub)
+                    if cs:
+                        lits.add(cs)
+                    cb = mir.const_bytes(sub)
+                    if cb:
+                        lits.add(cb.decode("latin-1"))
+        for bb, t, c in b.calls():
+            for a in b.call_args(bb):
+                for sub in mir.subexprs(b.expand_vars(strip_sites(a))):
+                    cs = const_str(sub)
+                    if cs:
+                        lits.add(cs)
+                    cb = mir.const_bytes(sub)
+                    if cb:
+                        lits.add(cb.decode("latin-1"))
+        for l in lits:
+            low = l.lower()
+            if _re.search(r"integer\s+primary\s+key", low):
+                declared_pk = True
+            for pat in RENUMBERING:
+                m = _re.search(pat, low)
+                if m:
+                    hits.append((b, m.group(0)))
+    if not ctx.require(n_fn >= 4, "R18-6", "R18-6|anchor", "expected at least 4 functions handing SQL to rusqlite, found %d" % n_fn):
+        return
+    if declared_pk:
+        # an explicit INTEGER PRIMARY KEY is an alias of the rowid and survives VACUUM
+        hits = [(b, k) for b, k in hits if k != "vacuum"]
+    seen = set()
+    for b, kw in hits:
+        if (b.path, kw) in seen:
+            continue
+        seen.add((b.path, kw))
+        ctx.ob("R18-6", b.path, "SQL text contains `%s`" % kw.upper(), False,
+               key="R18-6|%s|renumbers|%s" % (b.path, " ".join(kw.split())), crate=crate.kind,
+               detail="row ids are the table's implicit rowids: after this statement a number from an earlier listing (or "
+                      "another shell's) names a different line - `history delete 2 5` removes the wrong rows")
+    if not hits:
+        ctx.ob("R18-6", "(crate)", "no renumbering statement in the SQL text of %d functions" % n_fn, True,
+               key="R18-6|crate|stable-rowids", crate=crate.kind, nontrivial=True)
